@@ -369,7 +369,13 @@ func genC14(ref core.CaseRef, r *rand.Rand) *c14Case {
 				it.When = genWhen()
 			}
 			if it.Wrap != "" && it.Wrap != "cols" {
-				it.Inv = true // wrapper + WHEN: which value is cached is not documented
+				// wrapper + WHEN: which value a gated row repeats (the wrapper's or the call's) is not
+				// documented: both readings are accepted, nothing else
+				if it.WhenAnalytic {
+					it.Inv = true
+				} else {
+					it.WrapWhen = true
+				}
 			}
 		}
 		c.Items = append(c.Items, it)
